@@ -1,9 +1,237 @@
+import CoupeModel.Model.MultiJagged
 import CoupeModel.Driver.Util
 
-namespace Coupe.Driver.C11
-open Coupe.Driver
+/-!
+# C11 driver: MultiJagged
 
-/-- (stub; not built yet) -/
-def handle (_toks : List String) : String := "bad-op"
+ops (see `harness/src/props/c11.rs`):
+* `mj <D> <threads> <parts> <maxiter> <n> <w…> <coords point-major>`
+* `split <threads> <den> <k> <m…> <nw> <w…> <np> <perm…>`
+* `scheme <parts> <maxiter>`
+* `splitmany <len> <k> <p…>`
+* `axissort <D> <coord> <threads> <n> <coords point-major>`
+
+Besides the exact model the driver evaluates the real `f64` expressions of
+`compute_split_positions` (thresholds `Σ total * (a / den)`, `Ulps::default().eq`) with
+Lean's `Float`; when the floating-point decisions differ from the exact ones the line is
+`skip float-sensitive`.
+-/
+
+namespace Coupe.Driver.C11
+open Coupe.MultiJagged Coupe.Driver
+
+/-- `f64::EPSILON` = 2^-52. -/
+def eps : Float := Float.ofBits 0x3CB0000000000000
+
+/-- `approx-0.5.1: <f64 as UlpsEq>::ulps_eq(a, b, f64::EPSILON, 4)` (= `Ulps::default().eq`). -/
+def ulpsEq (a b : Float) : Bool :=
+  if (a - b).abs ≤ eps then true
+  else if a.isNaN || b.isNaN then false                    -- `signum` is NaN: `!=` holds
+  else if (a.toBits >>> 63) != (b.toBits >>> 63) then false
+  else
+    let x := a.toBits
+    let y := b.toBits
+    if x ≤ y then y - x ≤ 4 else x - y ≤ 4
+
+/-- `weight_thresholds` as the code computes them. -/
+def thresholdsF (total : Float) (den : Nat) : List Nat → Float → List Float
+  | [], _ => []
+  | a :: as, c =>
+    let c' := c + total * (Float.ofNat a / Float.ofNat den)
+    c' :: thresholdsF total den as c'
+
+/-- The refinement loop with the real float condition, started at the slab's beginning
+(the scan only chooses a start whose prefix sum does not exceed the threshold, and the
+condition is monotone in the prefix sum, so the start does not matter). -/
+def idxF (t : Float) : List Nat → Nat → Nat → Nat
+  | [], idx, _ => idx
+  | w :: rest, idx, sum =>
+    let s := Float.ofNat (sum + w)
+    if s < t || ulpsEq t s then idxF t rest (idx + 1) (sum + w) else idx
+
+/-- Float replica of `compute_split_positions` on the slab weights `sw`. -/
+def splitF (sw mods : List Nat) (den : Nat) : List Nat :=
+  let total := Float.ofNat sw.sum
+  (thresholdsF total den mods.dropLast 0.0).map (fun t => idxF t sw 0 0)
+
+/-- A chunking with blocks of `b` elements. -/
+def chunkBy (b : Nat) (n : Nat) : List Nat :=
+  if b = 0 then [n] else List.replicate (n / b) b ++ (if n % b = 0 then [] else [n % b])
+
+mutual
+/-- Replica of `recurse` with the float split positions (sensitivity probe only). -/
+def recurseF (dim : Nat) (key : Nat → Nat → Int) (ws : Array Nat) : Scheme → Nat → List Nat → Option Hier
+  | .mk 0 _ _ _, _, perm => some (.leaf perm)
+  | .mk (_ + 1) mods den next, coord, perm =>
+    let sorted := isort (key coord) perm
+    let pos := splitF (sorted.map (fun i => ws.getD i 0)) mods den
+    match splitMany sorted pos with
+    | none => none
+    | some subs =>
+      match next with
+      | none => none
+      | some cs => (recurseListF dim key ws cs ((coord + 1) % dim) subs).map .node
+def recurseListF (dim : Nat) (key : Nat → Nat → Int) (ws : Array Nat) : List Scheme → Nat → List (List Nat) → Option (List Hier)
+  | [], _, _ => some []
+  | _ :: _, _, [] => some []
+  | c :: cs, coord, p :: ps =>
+    match recurseF dim key ws c coord p with
+    | none => none
+    | some h =>
+      match recurseListF dim key ws cs coord ps with
+      | none => none
+      | some hs => some (h :: hs)
+end
+
+def bitsOfRatio (a den : Nat) : Nat := (Float.ofNat a / Float.ofNat den).toBits.toNat
+
+mutual
+/-- Same text as the hook `verif::partition_scheme`. -/
+def showScheme : Scheme → String
+  | .mk k mods den next =>
+    "(" ++ toString k ++ " [" ++ " ".intercalate (mods.map (fun a => toHex (bitsOfRatio a den))) ++ "]" ++
+      (match next with
+       | none => " -"
+       | some cs => showSchemes cs) ++ ")"
+def showSchemes : List Scheme → String
+  | [] => ""
+  | c :: cs => " " ++ showScheme c ++ showSchemes cs
+end
+
+/-- pairwise distinct? -/
+def distinctInts (l : List Int) : Bool :=
+  let s := (l.toArray.qsort (· < ·)).toList
+  (s.zip s.tail).all (fun p => p.1 != p.2)
+
+/-- Rename ids by first occurrence along the index order. -/
+def canon (ids : List Nat) : List Nat :=
+  let step := fun (st : List (Nat × Nat) × List Nat) (i : Nat) =>
+    match st.1.lookup i with
+    | some j => (st.1, j :: st.2)
+    | none => ((i, st.1.length) :: st.1, st.1.length :: st.2)
+  (ids.foldl step ([], [])).2.reverse
+
+def withNats (tag : String) (l : List Nat) : String :=
+  l.foldl (fun s x => s ++ " " ++ toString x) tag
+
+def handleMj (dim parts maxIter n : Nat) (ws : List Nat) (coords : List Int) : String :=
+  let ca := coords.toArray
+  let key : Nat → Nat → Int := fun c i => ca.getD (i * dim + c) 0
+  let distinct := (List.range dim).all (fun c => distinctInts ((List.range n).map (key c)))
+  let uniform := match ws with
+    | [] => true
+    | w :: rest => rest.all (· == w)
+  match scheme iroot parts maxIter with
+  | none => if parts = 0 then "panic divisor of zero" else "panic"
+  | some s =>
+    let perm := List.range n
+    match recurse {} isort (chunkBy 3) dim key ws s 0 perm,
+          recurse {} isort (chunkBy 0) dim key ws s 0 perm,
+          recurse {} isort (chunkBy 1) dim key ws s 0 perm with
+    | some h, some h1, some h2 =>
+      let leaves := h.leaves
+      if leaves != h1.leaves || leaves != h2.leaves then "model-chunk-dependent" else
+      match recurseF dim key ws.toArray s 0 perm with
+      | none => "skip float-sensitive"
+      | some hf =>
+        if hf.leaves != leaves then "skip float-sensitive"
+        else if distinct then
+          let ids := (leaves.zipIdx).foldl
+            (fun (a : Array Nat) lk => lk.1.foldl (fun a i => a.setIfInBounds i lk.2) a)
+            (Array.replicate n (2 ^ 64 - 1))
+          withNats "ok ids" (canon ids.toList)
+        else if uniform then
+          let loads := leaves.map (fun l => (l.map (fun i => ws.getD i 0)).sum)
+          withNats "ok loads" (loads.toArray.qsort (· < ·)).toList
+        else "ok ties"
+    | _, _, _ => "panic"
+
+def handleSplit (den : Nat) (mods ws perm : List Nat) : String :=
+  match mods with
+  | [] => "panic unwrap"
+  | _ :: _ =>
+    if perm.any (fun i => ws.length ≤ i) then "panic index out of bounds" else
+    let n := perm.length
+    match splitPositions {} (chunkBy 3 n) ws perm mods den,
+          splitPositions {} (chunkBy 0 n) ws perm mods den,
+          splitPositions {} (chunkBy 1 n) ws perm mods den,
+          splitPositions {} (chunkBy 7 n) ws perm mods den with
+    | some p, some p1, some p2, some p3 =>
+      if p != p1 || p != p2 || p != p3 then "model-chunk-dependent"
+      else if splitF (perm.map (fun i => ws.getD i 0)) mods den != p then "skip float-sensitive"
+      else withNats "ok pos" p
+    | _, _, _, _ => "panic"
+
+/-- Which panic `split_at_mut_many` meets first (same traversal as `splitManyAux`). -/
+def splitManyPanic : Nat → Nat → List Nat → String
+  | _, _, [] => "panic"
+  | restLen, drained, pos :: ps =>
+    if pos < drained then "panic attempt to subtract with overflow"
+    else if restLen < pos - drained then "panic mid > len"
+    else splitManyPanic (restLen - (pos - drained)) pos ps
+
+def handle (toks : List String) : String :=
+  match toks with
+  | "mj" :: d :: _threads :: parts :: mi :: n :: rest =>
+    match (do
+      let d ← parseNat? d
+      let parts ← parseNat? parts
+      let mi ← parseNat? mi
+      let n ← parseNat? n
+      let (ws, rest) ← takeParsed parseNat? n rest
+      let (cs, rest) ← takeParsed parseInt? (n * d) rest
+      if rest.isEmpty && (d == 2 || d == 3) then some (d, parts, mi, n, ws, cs) else none) with
+    | none => "bad-op"
+    | some (d, parts, mi, n, ws, cs) => handleMj d parts mi n ws cs
+  | "split" :: _threads :: den :: k :: rest =>
+    match (do
+      let den ← parseNat? den
+      let k ← parseNat? k
+      let (mods, rest) ← takeParsed parseNat? k rest
+      match rest with
+      | nw :: rest =>
+        let nw ← parseNat? nw
+        let (ws, rest) ← takeParsed parseNat? nw rest
+        match rest with
+        | np :: rest =>
+          let np ← parseNat? np
+          let (perm, rest) ← takeParsed parseNat? np rest
+          if rest.isEmpty && den ≠ 0 then some (den, mods, ws, perm) else none
+        | [] => none
+      | [] => none) with
+    | none => "bad-op"
+    | some (den, mods, ws, perm) => handleSplit den mods ws perm
+  | ["scheme", parts, mi] =>
+    match parseNat? parts, parseNat? mi with
+    | some parts, some mi =>
+      match scheme iroot parts mi with
+      | none => if parts = 0 then "panic divisor of zero" else "panic"
+      | some s => "ok " ++ showScheme s
+    | _, _ => "bad-op"
+  | "splitmany" :: len :: k :: rest =>
+    match (do
+      let len ← parseNat? len
+      let k ← parseNat? k
+      let (ps, rest) ← takeParsed parseNat? k rest
+      if rest.isEmpty then some (len, ps) else none) with
+    | none => "bad-op"
+    | some (len, ps) =>
+      match splitMany (List.replicate len 0) ps with
+      | some subs => withNats "ok lens" (subs.map List.length)
+      | none => splitManyPanic len 0 ps
+  | "axissort" :: d :: coord :: _threads :: n :: rest =>
+    match (do
+      let d ← parseNat? d
+      let coord ← parseNat? coord
+      let n ← parseNat? n
+      let (cs, rest) ← takeParsed parseInt? (n * d) rest
+      if rest.isEmpty && coord < d then some (d, coord, n, cs) else none) with
+    | none => "bad-op"
+    | some (d, coord, n, cs) =>
+      let ca := cs.toArray
+      let key : Nat → Int := fun i => ca.getD (i * d + coord) 0
+      if distinctInts ((List.range n).map key) then withNats "ok perm" (isort key (List.range n))
+      else "ok ties"
+  | _ => "bad-op"
 
 end Coupe.Driver.C11
